@@ -116,6 +116,12 @@ class Report:
             "violations": len(viol),
         }
         ev["coverage"].update(self.extra)
+        try:
+            from . import core as _core
+            if _core.INLINE_LOG:
+                ev["coverage"]["helpers_made_transparent"] = _core.INLINE_LOG
+        except Exception:
+            pass
         with open(os.path.join(OUT, "evidence", "%s.json" % self.prop), "w") as f:
             json.dump(ev, f, indent=1, sort_keys=False)
         print("%s: %d obligations over %d functions / %d sites; %d held, %d known finding(s), %d violation(s) [%.1fs]" % (
